@@ -14,6 +14,24 @@ Check (C17_layout_run :
 Check (C17_offsets_gap_free :
   forall it items i o, nth_error (offsets_from 0 (item_sizes it items)) i = Some o ->
     o = zsum (firstn i (item_sizes it items))).
+Check (C17_skip_struct_prefix :
+  forall fs k defs0 bs, forallb fix_ok fs = true ->
+    length bs = fsizes (map erase_fix fs) -> fvalids (map erase_fix fs) bs = true ->
+    idl_decodes (snd (skip_struct_to_idl fs k defs0)) (fst (skip_struct_to_idl fs k defs0)) bs
+      (IVStruct (firstn k (embed_fixes fs bs))) (skipn (fixes_size (firstn k fs)) bs)).
+Check (C17_skip_enum_prefix :
+  forall vs defs0 d fs k bs, skip_variants_ok vs = true -> find_skip_variant d vs = Some (Some (fs, k)) ->
+    length bs = fsizes (map erase_fix fs) -> fvalids (map erase_fix fs) bs = true ->
+    idl_decodes (snd (skip_enum_to_idl vs defs0)) (fst (skip_enum_to_idl vs defs0)) (d :: bs)
+      (IVEnum d (Some (IVStruct (firstn k (embed_fixes fs bs))))) (skipn (fixes_size (firstn k fs)) bs)).
+Check (C17_skip_enum_unit :
+  forall vs defs0 d rest, skip_variants_ok vs = true -> find_skip_variant d vs = Some None ->
+    idl_decodes (snd (skip_enum_to_idl vs defs0)) (fst (skip_enum_to_idl vs defs0)) (d :: rest) (IVEnum d None) rest).
+Check (C17_skip_hole_refuted :
+  exists fs k bs v r,
+    forallb fix_ok fs = true /\ length bs = fsizes (map erase_fix fs) /\ fvalids (map erase_fix fs) bs = true /\
+    idl_decode 10 (snd (hole_struct_to_idl fs k [])) (fst (hole_struct_to_idl fs k [])) bs = Some (IVStruct v, r) /\
+    nth_error v k <> nth_error (embed_fixes fs bs) (S k)).
 Check (C17_accounts_faithful :
   forall c pid ixs a, In a ixs -> ok c pid a = true -> consistent (program_defs c pid ixs) ->
     forall ts ms r, client_metas c pid a ts = Some (ms, r) ->
@@ -49,6 +67,10 @@ Print Assumptions C17_layout_faithful_prefix.
 Print Assumptions C17_layout_functional.
 Print Assumptions C17_layout_run.
 Print Assumptions C17_offsets_gap_free.
+Print Assumptions C17_skip_struct_prefix.
+Print Assumptions C17_skip_enum_prefix.
+Print Assumptions C17_skip_enum_unit.
+Print Assumptions C17_skip_hole_refuted.
 Print Assumptions C17_accounts_faithful.
 Print Assumptions C17_accounts_consistent.
 Print Assumptions C17_accounts_faithful_source.
